@@ -123,7 +123,12 @@ impl Indexable for Vec<Value> {
         let index: Result<usize, std::num::TryFromIntError> = if index >= 0 {
             index.try_into()
         } else {
-            (-index).try_into().map(|i: usize| self.len() - i)
+            index
+                .checked_neg()
+                .unwrap_or(i64::MAX)
+                .try_into()
+                // counting from the end past the first element is out of bounds, not an underflow
+                .map(|i: usize| self.len().checked_sub(i).unwrap_or(usize::MAX))
         };
         let i: usize = index.context("failed to cast index from i64")?;
         if i >= self.len() {
